@@ -314,9 +314,9 @@ struct KvParams
   // store closed right after the wheel started can sit out one full tick (observed: ~1 s stalls in
   // 1-2 % of closes with the default 1000 ms). Wall time only; the forked children use 10 ms.
   uint32_t tickMs = 1000;
-  // Empty values: replaying a record with an empty value calls memcpy(nullptr, p, 0) in KVStore::load()
-  // (UBSan: null pointer passed to a nonnull parameter; fatal in the asan flavor). Until that is repaired,
-  // empty values are confined to a few histories so the report cannot blind the rest of the enumeration.
+  // Empty values (--empty 1). Switchable because replaying one used to call memcpy(nullptr, p, 0) in
+  // KVStore::load() (fatal UBSan report in the asan flavor, fixed in /repo 3914c93): a driver can confine
+  // them to a few histories so such a report cannot blind the rest of the enumeration.
   bool allowEmpty = false;
 };
 
@@ -937,10 +937,14 @@ int modeJudge(const vf::Args &A)
   quietIora();
 
   uint64_t nImages = 0, nL2 = 0, writesTotal = 0, writesFull = 0, boundaries = 0, skippedSame = 0, byteImages = 0;
+  uint64_t nHung = 0; // children killed by the watchdog; after 3 the enumeration of this history stops (each costs a full
+                      // watchdog period; the driver re-runs those images in isolation and only a reproduced hang is a verdict)
+  const uint64_t maxHung = A.u("max-hung", 3);
   double childMsMax = 0, childMsSum = 0;
 
   auto judgeImage = [&](const Image &img, size_t k, size_t b) {
     if (onlyK >= 0 && (long(k) != onlyK || long(b) != onlyB)) return;
+    if (nHung >= maxHung) return;
     ChildCfg C = base;
     C.level = 1;
     C.stream = (hist * 100003 + k) * 4099 + b + 11;
@@ -949,6 +953,7 @@ int modeJudge(const vf::Args &A)
     writeImage(C.imgDir, img);
     ChildOutcome r = runChild(C, img, timeoutMs);
     nImages++;
+    if (r.status == "hung") nHung++;
     childMsSum += r.ms; if (r.ms > childMsMax) childMsMax = r.ms;
     fprintf(obs, "{\"lvl\":1,\"k\":%zu,\"b\":%zu,\"torn\":%d,\"st\":\"%s\",\"res\":[%s]}\n", k, b, logHasTornTail(img) ? 1 : 0,
             r.status.c_str(), r.sections.c_str());
@@ -985,9 +990,11 @@ int modeJudge(const vf::Args &A)
       writeImage(G.imgDir, img2);
       ChildOutcome r2 = runChild(G, img2, timeoutMs);
       nL2++;
+      if (r2.status == "hung") nHung++;
       childMsSum += r2.ms; if (r2.ms > childMsMax) childMsMax = r2.ms;
       fprintf(obs, "{\"lvl\":2,\"k\":%zu,\"b\":%zu,\"k2\":%zu,\"b2\":%zu,\"torn\":%d,\"st\":\"%s\",\"res\":[%s]}\n", k, b, c2.first, c2.second,
               logHasTornTail(img2) ? 1 : 0, r2.status.c_str(), r2.sections.c_str());
+      if (nHung >= maxHung) break;
     }
   };
 
@@ -1027,6 +1034,7 @@ int modeJudge(const vf::Args &A)
          ",\"ops\":" + std::to_string(T.size()) + ",\"images\":" + std::to_string(nImages) + ",\"images2\":" + std::to_string(nL2) +
          ",\"boundaries\":" + std::to_string(boundaries) + ",\"byte_images\":" + std::to_string(byteImages) +
          ",\"writes\":" + std::to_string(writesTotal) + ",\"writes_full\":" + std::to_string(writesFull) +
+         ",\"hung\":" + std::to_string(nHung) + ",\"stopped_early\":" + (nHung >= maxHung ? "1" : "0") +
          ",\"child_ms_avg\":" + std::to_string(nImages + nL2 ? childMsSum / double(nImages + nL2) : 0.0) + "}");
   O.flush();
   return 0;
